@@ -169,6 +169,10 @@ Section Sem.
   Fixpoint all_done (l : list rst) : bool :=
     match l with [] => true | s :: r => is_done s && all_done r end.
 
+  (* instance i of a parallel loop sees the counting variable bound to i *)
+  Definition insts (ie : ienv) (v : name) (c : xstmt) (n : nat) : list (ienv * xstmt) :=
+    map (fun i => ((v, i) :: ie, c)) (seq 0 n).
+
   (* start one statement occurrence in task instance [ctx]; result RDone when it
      completed synchronously *)
   Fixpoint start_stmt (f : nat) (ctx : nat) (ie : ienv) (s : xstmt) {struct f} : M rst :=
@@ -193,7 +197,7 @@ Section Sem.
         | Some (i, st) => ret (RCall id i st)
         end
       | XParallel bs =>
-        sts <- start_list f' ctx ie bs ;;
+        sts <- start_list f' ctx (map (fun b => (ie, b)) bs) ;;
         if all_done sts then ret RDone else ret (RPar sts)
       | XCond e p fl =>
         b <- decide_m e ctx ;;
@@ -205,7 +209,7 @@ Section Sem.
       | XWhile _ _ | XCount _ _ _ => loop_test f' ctx ie s 0
       | XParLoop v lim c =>
         n <- read_limit lim ctx ;;
-        sts <- start_insts f' ctx ie v c 0 (Z.to_nat n) ;;
+        sts <- start_list f' ctx (insts ie v c (Z.to_nat n)) ;;
         if all_done sts then ret RDone else ret (RParLoop sts)
       end
     end
@@ -225,30 +229,17 @@ Section Sem.
       end
     end
 
-  with start_list (f : nat) (ctx : nat) (ie : ienv) (bs : list xstmt) {struct f} : M (list rst) :=
+  (* start the statements of a list one after the other, each with its own loop-index
+     environment: the branches of a Parallel, or the instances of a parallel loop *)
+  with start_list (f : nat) (ctx : nat) (l : list (ienv * xstmt)) {struct f} : M (list rst) :=
     match f with
     | O => fail_fuel
     | S f' =>
-      match bs with
+      match l with
       | [] => ret []
-      | b :: r =>
+      | (ie, b) :: r =>
         st <- start_stmt f' ctx ie b ;;
-        sts <- start_list f' ctx ie r ;;
-        ret (st :: sts)
-      end
-    end
-
-  (* instances i .. i+n-1 of a parallel loop *)
-  with start_insts (f : nat) (ctx : nat) (ie : ienv) (v : name) (c : xstmt) (i n : nat) {struct f}
-      : M (list rst) :=
-    match f with
-    | O => fail_fuel
-    | S f' =>
-      match n with
-      | O => ret []
-      | S n' =>
-        st <- start_stmt f' ctx ((v, i) :: ie) c ;;
-        sts <- start_insts f' ctx ie v c (S i) n' ;;
+        sts <- start_list f' ctx r ;;
         ret (st :: sts)
       end
     end
@@ -301,7 +292,7 @@ Section Sem.
         | Some (Some (j, st')) => ret (Some (RCall cid j st'))
         end
       | XParallel bs, RPar sts =>
-        r <- deliver_list f' ctx ie bs sts id ;;
+        r <- deliver_list f' ctx (map (fun b => (ie, b)) bs) sts id ;;
         match r with
         | None => ret None
         | Some sts' => if all_done sts' then ret (Some RDone) else ret (Some (RPar sts'))
@@ -328,7 +319,7 @@ Section Sem.
         | Some (Some (j, st')) => ret (Some (RLoop k j st'))
         end
       | XParLoop v lim c, RParLoop sts =>
-        r <- deliver_insts f' ctx ie v c 0 sts id ;;
+        r <- deliver_list f' ctx (insts ie v c (List.length sts)) sts id ;;
         match r with
         | None => ret None
         | Some sts' => if all_done sts' then ret (Some RDone) else ret (Some (RParLoop sts'))
@@ -359,45 +350,24 @@ Section Sem.
     end
 
   (* deliver into the first branch that awaits [id] *)
-  with deliver_list (f : nat) (ctx : nat) (ie : ienv) (bs : list xstmt) (sts : list rst)
+  with deliver_list (f : nat) (ctx : nat) (l : list (ienv * xstmt)) (sts : list rst)
          (id : nat) {struct f} : M (option (list rst)) :=
     match f with
     | O => fail_fuel
     | S f' =>
-      match bs, sts with
-      | b :: br, st :: sr =>
+      match l, sts with
+      | (ie, b) :: br, st :: sr =>
         r <- deliver f' ctx ie b st id ;;
         match r with
         | Some st' => ret (Some (st' :: sr))
         | None =>
-          r' <- deliver_list f' ctx ie br sr id ;;
+          r' <- deliver_list f' ctx br sr id ;;
           match r' with
           | Some sr' => ret (Some (st :: sr'))
           | None => ret None
           end
         end
       | _, _ => ret None
-      end
-    end
-
-  with deliver_insts (f : nat) (ctx : nat) (ie : ienv) (v : name) (c : xstmt) (i : nat)
-         (sts : list rst) (id : nat) {struct f} : M (option (list rst)) :=
-    match f with
-    | O => fail_fuel
-    | S f' =>
-      match sts with
-      | st :: sr =>
-        r <- deliver f' ctx ((v, i) :: ie) c st id ;;
-        match r with
-        | Some st' => ret (Some (st' :: sr))
-        | None =>
-          r' <- deliver_insts f' ctx ie v c (S i) sr id ;;
-          match r' with
-          | Some sr' => ret (Some (st :: sr'))
-          | None => ret None
-          end
-        end
-      | [] => ret None
       end
     end.
 
